@@ -1,4 +1,4 @@
 From Coq Require Import ExtrOcamlBasic.
 From Coq Require Import NArith List.
-From EZK Require Import Lib.Bytes Model.C13.
-Extraction "../ocaml/gen/c13.ml" n2b b2n N.of_nat N.to_nat run.
+From EZK Require Import Lib.Bytes Model.C13 Model.C13q.
+Extraction "../ocaml/gen/c13.ml" n2b b2n N.of_nat N.to_nat run early_chan.
